@@ -336,7 +336,12 @@ func (t *Table) Get(hkey uint64) (storage.Entry, error) {
 
 	vlen := binary.BigEndian.Uint32(t.memory[offset : offset+4])
 	offset += 4
-	e.SetValue(t.memory[offset : offset+uint64(vlen)])
+
+	// The returned entry is the caller's own copy: the table's memory is
+	// reused when the table is recycled and must not be modified by callers.
+	value := make([]byte, vlen)
+	copy(value, t.memory[offset:offset+uint64(vlen)])
+	e.SetValue(value)
 
 	return e, nil
 }
